@@ -394,4 +394,72 @@ theorem cutTreeLeave_refines_model (pids : List Int) (r : Rose) (h : IsTree r pi
 
 end leave
 
+/-! ## `CutByFurcationOrder._enter` : the callback `CutByFurcationOrder.__call__` hands to `cut_tree` -/
+
+theorem countNonzero_eqMask (pids : List Int) (x : Int) : countNonzero (eqMask pids x) = ((pids.filter (· = x)).length : Int) := by
+  simp only [countNonzero, eqMask]
+  congr 1
+  induction pids with
+  | nil => rfl
+  | cons p ps ih =>
+    by_cases hp : p = x
+    · simp [List.filter_cons, hp, ih]
+    · simp [List.filter_cons, hp, ih]
+
+theorem isFurcation_generated (pids : List Int) (j : Int) (hj : 0 ≤ j ∧ j.toNat < pids.length) :
+    node_is_furcation (rangeI pids.length) pids j = some (isFurcation pids j) := by
+  have e : j = ((j.toNat : Nat) : Int) := by omega
+  have h0 : Py.idx (rangeI pids.length) j = some j := by
+    have h1 : Py.idx (rangeI pids.length) ((j.toNat : Nat) : Int) = (rangeI pids.length)[j.toNat]? :=
+      Py.idx_nat _ _ (by simpa [rangeI] using hj.2)
+    rw [← e, rangeI_getElem? _ _ hj.2, ← e] at h1
+    exact h1
+  simp only [node_is_furcation, node_is_furcation.body, Py.bind, h0, Py.finish, Option.map, countNonzero_eqMask, isFurcation]
+  congr 1
+  simp only [gt_iff_lt, decide_eq_decide]
+  omega
+
+/-- **`CutByFurcationOrder._enter` as translated IS the model's callback `Sub.orderEnter`** on every node of a tree object (it raises nothing) -/
+theorem orderEnter_refines (pids : List Int) (m j : Int) (pl : Option Int) (hj : 0 ≤ j ∧ j.toNat < pids.length) :
+    order_enter (rangeI pids.length) pids m j pl = some (orderEnter pids m j pl) := by
+  cases pl with
+  | none => simp [order_enter, order_enter.body, Py.seq, Py.finish, orderEnter]
+  | some l =>
+    cases hf : isFurcation pids j with
+    | true => simp [order_enter, order_enter.body, Py.seq, Py.bind, Py.finish, orderEnter, isFurcation_generated pids j hj, hf]
+    | false => simp [order_enter, order_enter.body, Py.seq, Py.bind, Py.finish, orderEnter, isFurcation_generated pids j hj, hf]
+
+/-- `CutByFurcationOrder(m).__call__` = `cut_tree(x, enter=self._enter)`: the generated `_enter` as the user callback of the generated `cut_tree`
+(callback state: "has not raised") -/
+def orderCallback (pids : List Int) (m : Int) : Bool → Int → Option Int → Bool × (Int × Bool) :=
+  fun ok n pv => match order_enter (rangeI pids.length) pids m n pv with
+    | some r => (ok, r)
+    | none => (false, default)
+
+/-- **the translated `CutByFurcationOrder` pipeline equals the model `Sub.cutByOrder`** on every tree table: the generated `cut_tree` run with the
+generated `_enter` never raises and returns the model's table -/
+theorem cutByOrder_refines (pids : List Int) (r : Rose) (h : IsTree r pids) (m : Int) (F : Nat) :
+    cut_tree_enter (orderCallback pids m) (2 * r.size + F + 1) (rangeI pids.length) pids true =
+      (cutByOrder pids m).map (fun t => (true, ((Py.range (t.mapping.length : Int), t.newPid), t.mapping))) := by
+  have hin : ∀ j ∈ r.ids, 0 ≤ j ∧ j.toNat < pids.length := fun j hj => (isTree_mem h j).1 hj
+  rw [cutTreeEnter_refines pids r h _ true F]
+  -- on the nodes of the tree the generated callback is the model's, lifted to a callback that ignores its state
+  obtain ⟨e, _⟩ := RefineClosures.spec_abs (S := List Int × Bool) (S' := List Int × Bool) (T := Int × Bool) (K := Unit)
+    (fun s => s) (fun _ => True) (fun j => 0 ≤ j ∧ j.toNat < pids.length)
+    (cutEnterS (orderCallback pids m)) Sub.noLeave (cutEnterS (fun (s : Bool) n pv => (s, orderEnter pids m n pv))) Sub.noLeave
+    (fun s n pv _ hn => by
+      refine ⟨?_, trivial⟩
+      match pv with
+      | some (p, true) => simp [cutEnterS]
+      | some (p, false) => simp [cutEnterS, orderCallback, orderEnter_refines pids m n _ hn]
+      | none => simp [cutEnterS, orderCallback, orderEnter_refines pids m n _ hn])
+    (fun s n ks _ _ => ⟨rfl, trivial⟩) r none ([], true) trivial hin
+  have e' : spec (cutEnterS (orderCallback pids m)) Sub.noLeave r none ([], true) =
+      spec (cutEnterS (fun (s : Bool) n pv => (s, orderEnter pids m n pv))) Sub.noLeave r none ([], true) := by
+    rw [e]
+  rw [e', cutEnterS_pure]
+  unfold cutByOrder cutTreeEnter
+  simp only
+  rw [run_tree h]
+
 end RefineCut
